@@ -1,9 +1,14 @@
 package sim
 
 import (
+	"context"
 	"fmt"
 	"regexp"
 	"testing"
+	"time"
+
+	"github.com/theory/sqljson/path/exec"
+	"github.com/theory/sqljson/path/types"
 )
 
 var methodArg = regexp.MustCompile(`\(\s*[0-9"]`)
@@ -84,4 +89,34 @@ func checkSentinels(t *testing.T, list []*sentinel) ([]SentinelMismatch, error) 
 
 func (m SentinelMismatch) String() string {
 	return fmt.Sprintf("query %q doc=%s on one long-lived Path: when the worker started: %s; after all its scenarios: %s", m.Path, m.Doc, m.Before, m.After)
+}
+
+// warmUp exercises every curated (path, home document) pair once OUTSIDE any
+// synctest bubble when a worker starts: goroutines the library starts lazily
+// (and which never exit) then live outside the bubbles, on real time, where
+// the race detector still sees them; started inside a bubble they would keep
+// it from ending. Cold-start runs skip this on purpose.
+func warmUp() {
+	defer func() { _ = recover() }()
+	ctx := types.ContextWithTZ(context.Background(), time.UTC)
+	for _, pr := range twinPairs() {
+		p, d := poolPaths[pr[0]], poolDocs[pr[1]]
+		if d.NoGen {
+			continue
+		}
+		pa, err := safeParse(p.Text)
+		if err != nil {
+			continue
+		}
+		doc, err := decodeJSON(DocSpec{JSON: d.JSON})
+		if err != nil {
+			continue
+		}
+		func() {
+			defer func() { _ = recover() }()
+			_, _ = pa.Query(ctx, doc, exec.WithTZ())
+			_ = pa.String()
+			_, _ = pa.MarshalText()
+		}()
+	}
 }
